@@ -14,13 +14,7 @@ Section BlobProofs.
   Proof. apply rt_withsize. intros t _. apply (tx_rt B HB). Qed.
 
   Lemma rt_ws_psbt : roundtrip (enc_ws_psbt B) (dec_ws_psbt B) (wf_ws_psbt B).
-  Proof. apply rt_withsize. intros p Hp. apply (psbt_rt B HB). exact Hp. Qed.
-
-  Lemma streamable_ok p : streamable p = true -> psbt_ok p = true.
-  Proof.
-    unfold streamable. intros H. apply andb_true_iff in H. destruct H as [H _].
-    apply andb_true_iff in H. tauto.
-  Qed.
+  Proof. apply rt_withsize. intros p _. apply (psbt_rt B HB). Qed.
 
   Lemma post_inputs_consistent ts : forall ins,
     length ts = length ins ->
@@ -51,13 +45,21 @@ Section BlobProofs.
   Lemma rt_ws_streamed : roundtrip (enc_ws_streamed B) (dec_ws_streamed B) (wf_ws_streamed B).
   Proof.
     apply rt_withsize. intros p Hp. unfold parse_streamed.
-    rewrite (psbt_rt B HB p (streamable_ok p Hp)). cbn [bind].
-    destruct (streamable_post p Hp) as [r Hr]. rewrite Hr. reflexivity.
+    rewrite (psbt_rt B HB p). cbn [bind].
+    destruct (streamable_post _ Hp) as [r Hr]. rewrite Hr. reflexivity.
   Qed.
 
   Lemma rt_proof : roundtrip (enc_proof B) (dec_proof B) (wf_proof B).
   Proof. intros p rest _. apply (proof_rt B HB). Qed.
 End BlobProofs.
+
+Lemma rt_OutPoint : roundtrip enc_OutPoint dec_OutPoint wf_OutPoint.
+Proof.
+  intros [t v] rest Hw. unfold wf_OutPoint in Hw. cbn [op_txid op_vout] in Hw.
+  apply andb_true_iff in Hw. destruct Hw as [Ht Hv].
+  unfold enc_OutPoint, dec_OutPoint. cbn [op_txid op_vout]. rewrite <- app_assoc.
+  rewrite (rt_fixed 32 t _ Ht). cbn [bind]. rewrite (rt_u32le v rest Hv). reflexivity.
+Qed.
 
 (** ** StreamedPSBT: what the decoder hands to the signer *)
 
@@ -96,7 +98,7 @@ Qed.
     flags, and no previous transaction is retained *)
 Theorem streamed_post_sound p p' flags :
   streamed_post p = Some (p', flags) ->
-  p_tx p' = p_tx p /\ p_txins p' = p_txins p /\ p_id p' = p_id p /\
+  p_tx p' = p_tx p /\ p_txins p' = p_txins p /\
   map i_wu (p_inputs p') = map2 ref_prevout (p_txins p) (p_inputs p) /\
   flags = map2 ref_flag (p_txins p) (p_inputs p) /\
   map i_nwu (p_inputs p') = map (fun _ => None) (p_inputs p) /\
@@ -104,7 +106,7 @@ Theorem streamed_post_sound p p' flags :
 Proof.
   unfold streamed_post. destruct (negb (unsigned_tx_ok p)); [discriminate|].
   destruct (post_inputs (p_txins p) (p_inputs p)) as [[l fl]|] eqn:E; [|discriminate].
-  intros H. injection H as <- <-. cbn [p_tx p_txins p_id p_inputs].
+  intros H. injection H as <- <-. cbn [p_tx p_txins p_inputs].
   destruct (post_inputs_spec _ _ _ _ E) as (A & Bq & C & D). repeat split; try assumption.
   rewrite C. clear -D. revert D. generalize (p_inputs p). induction (p_txins p) as [|t ts IH]; intros [|i ins] D;
     try discriminate; [reflexivity|]. cbn [map2 length]. f_equal. apply IH. cbn [length] in D. lia.
@@ -167,7 +169,7 @@ Qed.
 (** The registry round trip: if no two arms of the dispatch share a type id and every message
     has an arm under its own id whose decoder inverts the message's encoder, then
     [from_vec (as_vec m)] is [m], for every well-formed message within the size limit. *)
-Theorem registry_roundtrip {M} (table : list (entry M)) (id_of : M -> N)
+Theorem registry_roundtrip {M} (maxsz : N) (table : list (entry M)) (id_of : M -> N)
         (enc : M -> bytes) (wf : M -> bool) :
   NoDup (map e_id table) ->
   (forall m, wf m = true ->
@@ -175,15 +177,15 @@ Theorem registry_roundtrip {M} (table : list (entry M)) (id_of : M -> N)
      exists e, In e table /\ e_id e = id_of m /\
                forall rest, e_dec e (enc m ++ rest) = Some (m, rest)) ->
   forall m, wf m = true ->
-    lenN (as_vec_of id_of enc m) <= MAX_MESSAGE_SIZE ->
-    from_vec table (as_vec_of id_of enc m) = Some (Known m).
+    lenN (as_vec_of id_of enc m) <= maxsz ->
+    from_vec maxsz table (as_vec_of id_of enc m) = Some (Known m).
 Proof.
   intros Hnd Hall m Hw Hsz. destruct (Hall m Hw) as (Hid & e & Hin & He & Hdec).
   unfold from_vec. unfold as_vec_of in *.
   assert (Hlen : 2 <= lenN (enc_u16 (id_of m) ++ enc m)).
   { unfold lenN. rewrite app_length. unfold enc_u16. rewrite be_enc_length. lia. }
   destruct (N.ltb_spec (lenN (enc_u16 (id_of m) ++ enc m)) 2) as [C|_]; [lia|].
-  destruct (N.ltb_spec MAX_MESSAGE_SIZE (lenN (enc_u16 (id_of m) ++ enc m))) as [C|_]; [lia|].
+  destruct (N.ltb_spec maxsz (lenN (enc_u16 (id_of m) ++ enc m))) as [C|_]; [lia|].
   rewrite rt_u16 by exact Hid. cbn [bind]. rewrite <- He, (lookup_nodup table Hnd e Hin).
   rewrite <- (app_nil_r (enc m)). rewrite Hdec. reflexivity.
 Qed.
@@ -192,6 +194,41 @@ Qed.
     labels an earlier arm is handed to that arm's decoder. *)
 Lemma lookup_first {M} (a : entry M) t ty : e_id a = ty -> lookup (a :: t) ty = Some a.
 Proof. intros <-. cbn [lookup]. rewrite N.eqb_refl. reflexivity. Qed.
+
+(** what the dispatch does when an earlier arm carries the same id: the later arm's decoder is
+    never consulted, whatever the payload *)
+Lemma lookup_skip {M} (pre : list (entry M)) a post ty :
+  ~ In ty (map e_id pre) -> e_id a = ty -> lookup (pre ++ a :: post) ty = Some a.
+Proof.
+  induction pre as [|x pre IH]; intros Hn Ha; [apply lookup_first; exact Ha|].
+  cbn [app lookup]. cbn [map In] in Hn.
+  destruct (N.eqb_spec (e_id x) ty) as [E|_]; [exfalso; apply Hn; left; exact E|].
+  apply IH; [|exact Ha]. intros H. apply Hn. right. exact H.
+Qed.
+
+Theorem duplicate_id_misroutes {M} (maxsz : N) (pre post : list (entry M)) (a : entry M) payload :
+  ~ In (e_id a) (map e_id pre) -> fits 2 (e_id a) = true ->
+  lenN (enc_u16 (e_id a) ++ payload) <= maxsz ->
+  from_vec maxsz (pre ++ a :: post) (enc_u16 (e_id a) ++ payload) =
+  match e_dec a payload with Some (m, []) => Some (Known m) | _ => None end.
+Proof.
+  intros Hn Hid Hsz. unfold from_vec.
+  assert (Hlen : 2 <= lenN (enc_u16 (e_id a) ++ payload)).
+  { unfold lenN. rewrite app_length. unfold enc_u16. rewrite be_enc_length. lia. }
+  destruct (N.ltb_spec (lenN (enc_u16 (e_id a) ++ payload)) 2) as [C|_]; [lia|].
+  destruct (N.ltb_spec maxsz (lenN (enc_u16 (e_id a) ++ payload))) as [C|_]; [lia|].
+  rewrite rt_u16 by exact Hid. cbn [bind]. rewrite (lookup_skip pre a post _ Hn eq_refl). reflexivity.
+Qed.
+
+(** ** the blob laws are satisfiable (used by the non-vacuity examples) *)
+Definition B1 : blob_ops := {|
+  TxT := bytes; tx_ser := fun b => b; tx_parse := fun w => Some w;
+  PsbtT := bytes; psbt_view := fun _ => {| p_tx := []; p_txins := []; p_inputs := [] |};
+  psbt_ser := fun b => b; psbt_parse := fun w => Some w;
+  ProofT := unit; proof_ser := fun _ => []; proof_dec := fun bs => Some (tt, bs);
+|}.
+Lemma B1_laws : blob_laws B1.
+Proof. constructor; cbn; try reflexivity. intros [] rest. reflexivity. Qed.
 
 (** ** tactics for the generated per-struct lemmas *)
 
